@@ -76,6 +76,19 @@ def P(name, row, T, ctype, attrs="", dir="in", **kw):
     return d
 
 
+DIM_FORMS = ["{m}", "{m}", "{m}+1", "{m},{k}", "{m},{k}-1", "{m}+1,{k}"]
+
+
+def extents(p, ins):
+    """Extents of an intent(out)+dimension(...) argument for the size arguments of one call."""
+    nm = p["name"]
+    m, k = ins["m" + nm], ins.get("k" + nm, 1)
+    res = []
+    for part in p.get("dimform", "{m}").split(","):
+        res.append({"{m}": m, "{m}+1": m + 1, "{k}": k, "{k}-1": k - 1}[part])
+    return res
+
+
 VECTOR_ROWS = ["V1in", "V1out", "V1inout", "V1outalloc", "V1inoutalloc"]
 NUM_T_ALL = sorted(INT_TYPES) + sorted(FLT_TYPES)
 NUM_T = NUM_T_ALL
@@ -175,9 +188,15 @@ def param(draw, i, lang, for_fortran=True, allowed=None, types=None):
         return [P(n, row, T, "%s *%s" % (T, n), "+rank(1)+intent(inout)", "inout", companion="n" + n),
                 P("n" + n, "implied", "int", "int n%s" % n, "+implied(size(%s))" % n, implied_of=n)]
     if row == "N3out":
+        # pointers.rst: intent(out) + dimension(...): extents are expressions over other arguments, rank 1 or 2
         T = draw(st.sampled_from(ARRAY_T))
-        return [P("m" + n, "N1", "int", "int m%s" % n, size_for=n),
-                P(n, row, T, "%s *%s" % (T, n), "+intent(out)+dimension(m%s)" % n, "out", size_from="m" + n)]
+        form = draw(st.sampled_from(DIM_FORMS))
+        ps = [P("m" + n, "N1", "int", "int m%s" % n, size_for=n, size_role="m")]
+        if "{k}" in form:
+            ps.append(P("k" + n, "N1", "int", "int k%s" % n, size_for=n, size_role="k"))
+        ps.append(P(n, row, T, "%s *%s" % (T, n), "+intent(out)+dimension(%s)" % form.format(m="m" + n, k="k" + n), "out",
+                    size_from="m" + n, dimform=form))
+        return ps
     raise ValueError(row)
 
 
@@ -230,9 +249,8 @@ def call_vector(draw, f, for_fortran=True):
         if p.get("implied_of"):
             continue
         if p.get("size_for"):
-            n = draw(st.sampled_from([0, 1, 2, 5]))
+            n = draw(st.sampled_from([0, 1, 2, 4])) if p.get("size_role", "m") == "m" else draw(st.sampled_from([1, 2, 3]))
             ins[p["name"]] = n
-            sizes[p["size_for"]] = n
             continue
         if row in ("N1", "N2in"):
             ins[p["name"]] = draw(value_of(T, for_fortran))
@@ -286,7 +304,10 @@ def call_vector(draw, f, for_fortran=True):
             ins[p["name"]] = [draw(value_of(T, for_fortran)) for _ in range(n)]
             outs[p["name"]] = [draw(value_of(T, for_fortran)) for _ in range(n)]
         elif row == "N3out":
-            outs[p["name"]] = [draw(value_of(T, for_fortran)) for _ in range(sizes[p["name"]])]
+            total = 1
+            for e in extents(p, ins):
+                total *= e
+            outs[p["name"]] = [draw(value_of(T, for_fortran)) for _ in range(total)]
     r = f["ret"]
     if r:
         if r["row"] in ("N", "B", "C"):
@@ -330,6 +351,9 @@ def library(draw, lang=None, nfunc=(4, 10), for_fortran=True, with_class=None, r
         lib["funcs"] += grp
         fid += len(grp)
         lib["funcs"].append(draw(default_func(lang, fid, "dfltFunc", for_fortran)))
+        fid += 1
+    if for_fortran and rows is None and draw(st.booleans()):
+        lib["funcs"].append(draw(pointer_func(lang, fid, "ptrFunc", for_fortran)))
         fid += 1
     wc = (lang == "c++") and (draw(st.booleans()) if with_class is None else with_class)
     if wc:
@@ -377,6 +401,33 @@ def overload_group(draw, lang, fid, name, sigs, for_fortran=True):
         f["calls"] = [draw(call_vector(f, for_fortran)) for _ in range(2)]
         funcs.append(f)
     return funcs
+
+
+@st.composite
+def pointer_func(draw, lang, fid, name, for_fortran=True):
+    """pointers.rst: a pointer result / 'T **' intent(out) argument with +dimension(nx[,ny[,nz]]) whose extents
+    come back through hidden intent(out) arguments; the Fortran API is a pointer to an array of that shape."""
+    T = draw(st.sampled_from(["int", "double", "long"]))
+    rank = draw(st.sampled_from([1, 2, 2, 3]))
+    dims = ["nx", "ny", "nz"][:rank]
+    hidden = [P(d, "H1out", "int", "int *%s" % d, "+intent(out)+hidden", "out") for d in dims]
+    as_result = draw(st.booleans())
+    if as_result:
+        f = dict(name=name, fid=fid, cls=None, kind="func", params=hidden, const=False, suffix=None, calls=[],
+                 ret=dict(row="P", T=T, ctype="%s *" % T, attrs="+dimension(%s)" % ",".join(dims), rank=rank))
+    else:
+        f = dict(name=name, fid=fid, cls=None, kind="func", const=False, suffix=None, calls=[], ret=None,
+                 params=[P("grid", "P2out", T, "%s **grid" % T, "+intent(out)+dimension(%s)" % ",".join(dims), "out", rank=rank)] + hidden)
+    for _ in range(3):
+        shape = [draw(st.sampled_from([1, 2, 3])) for _d in dims]
+        total = 1
+        for e in shape:
+            total *= e
+        data = [draw(value_of(T, for_fortran)) for _i in range(total)]
+        outs = dict(zip(dims, shape))
+        outs["rv" if as_result else "grid"] = dict(shape=shape, data=data)
+        f["calls"].append(dict(inputs={}, outputs=outs))
+    return f
 
 
 @st.composite
@@ -567,14 +618,22 @@ def expected_call(f, call, site, front, serial_of=None, op=None):
         elif row in ("N3in", "N3inout", "V1in", "V1inout", "V1inoutalloc"):
             out.append("A %d %s" % (idx, atext(T, ins[nm])))
     r = f["ret"]
-    if r and r["row"] == "V":
+    if r and r["row"] == "P":
+        out.append("O rv " + atext("int", outs["rv"]["shape"]))
+        out.append("O rv " + atext(r["T"], outs["rv"]["data"]))
+    elif r and r["row"] == "V":
         out.append("O rv " + atext(r["T"], outs["rv"]))
     elif r:
         out.append("O rv " + obs_text(r["T"], r["row"], outs["rv"], front, r.get("flen")))
     for idx, p in enumerate(f["params"]):
         nm = p["name"]
         if nm in outs:
-            if p["row"] in ("N3inout", "N3out", "V1outalloc", "V1inoutalloc"):
+            if p["row"] == "H1out":
+                continue            # hidden: not part of the Fortran API
+            if p["row"] == "P2out":
+                out.append("O %d %s" % (idx, atext("int", outs[nm]["shape"])))
+                out.append("O %d %s" % (idx, atext(p["T"], outs[nm]["data"])))
+            elif p["row"] in ("N3inout", "N3out", "V1outalloc", "V1inoutalloc"):
                 out.append("O %d %s" % (idx, atext(p["T"], outs[nm])))
             elif p["row"] in ("V1out", "V1inout"):
                 # fixed-size caller array: the first min(extent, vector size) values are copied back
@@ -846,7 +905,9 @@ def body_lines(f, this=False):
         vals = [c["outputs"].get(nm) for c in f["calls"]]
         if not vals or all(v is None for v in vals):
             continue
-        if row in ("N2out", "N2inout", "B1out", "B1inout"):
+        if row == "P2out":
+            body += pointer_table(T, [v["data"] for v in vals], ncall, "*%s = vf_store;" % nm)
+        elif row in ("N2out", "N2inout", "B1out", "B1inout", "H1out"):
             body.append("    { static const %s vf_tab[] = {%s}; *%s = vf_tab[vf_call %% %d]; }"
                         % (T, ", ".join(c_lit(T, v) for v in vals), nm, ncall))
         elif row in ("N2ref", "N2refout"):
@@ -885,6 +946,8 @@ def body_lines(f, this=False):
         if r["row"] in ("N", "B", "C"):
             body.append("    { static const %s vf_tab[] = {%s}; return vf_tab[vf_call %% %d]; }"
                         % (r["T"], ", ".join(c_lit(r["T"], v) for v in vals), ncall))
+        elif r["row"] == "P":
+            body += pointer_table(r["T"], [v["data"] for v in vals], ncall, "return vf_store;")
         elif r["row"] == "V":
             flat = [x for v in vals for x in v]
             offs = []
@@ -906,6 +969,21 @@ def body_lines(f, this=False):
             body.append("    { static const std::string vf_tab[] = {%s}; return vf_tab[vf_call %% %d]; }"
                         % (", ".join("std::string(%s)" % c_str(v["text"]) for v in vals), ncall))
     return body
+
+
+def pointer_table(T, lists, ncall, finish):
+    """Copy the scripted values of this call into static storage owned by the library and hand out its address."""
+    flat = [x for v in lists for x in v]
+    offs = []
+    o = 0
+    for v in lists:
+        offs.append(o)
+        o += len(v)
+    return ["    { static const %s vf_tab[] = {%s}; static const int vf_off[] = {%s}; static const int vf_len[] = {%s};"
+            % (T, ", ".join(c_lit(T, x) for x in flat) or "0", ", ".join(map(str, offs)), ", ".join(str(len(v)) for v in lists)),
+            "      static %s vf_store[32]; int vf_j;" % T,
+            "      for (vf_j = 0; vf_j < vf_len[vf_call %% %d]; vf_j++) vf_store[vf_j] = vf_tab[vf_off[vf_call %% %d] + vf_j];" % (ncall, ncall),
+            "      %s }" % finish]
 
 
 def subject_sources(lib):
